@@ -460,10 +460,15 @@ def many_workers_stage(c):
       for t in ts:
         t.join(timeout=60)
       bad += [(rnd, i, r) for i, r in enumerate(res) if r != ('op', True, '')]
-      for i in range(n):       # complete what was handed out, so that the next round needs the algorithm again
-        for t in d.api.ListTrials(vsp.ListTrialsRequest(parent=studies[i])).trials:
-          if t.state == study_pb2.Trial.State.ACTIVE:
-            d.api.CompleteTrial(vsp.CompleteTrialRequest(name=t.name, final_measurement=svcreal.meas_proto([1, True])))
+      try:
+        for i in range(n):       # complete what was handed out, so that the next round needs the algorithm again
+          for t in d.api.ListTrials(vsp.ListTrialsRequest(parent=studies[i])).trials:
+            if t.state == study_pb2.Trial.State.ACTIVE:
+              d.api.CompleteTrial(vsp.CompleteTrialRequest(name=t.name, final_measurement=svcreal.meas_proto([1, True])))
+      except Exception as e:  # pylint: disable=broad-except
+        # the deployment does not answer any more (every handler thread is stuck behind the calls above)
+        bad.append((rnd, -1, ('raised', type(e).__name__, 'ListTrials / CompleteTrial after the round: ' + str(e)[:100])))
+        break
     c.traces += 1
     c.count(1, ('c08-parallel-studies',), kind='c08-parallel-studies')
     if bad:
